@@ -657,7 +657,7 @@ def run(c):
       level='proof',
       rule='point multisets in 1-4 dimensions over the grid {-inf,-2..2,+inf} (non-trivial = a tie in a single coordinate, a duplicate point or a non-finite value); service/in-memory histories count as non-trivial when they have >= 2 trials mixing states or NaN',
       assumptions=[
-          'floats are order-embedded into integers for the model (the pure routines are fed grid values and +-inf, which are float32-representable, so jax's float32 merges nothing; the in-memory best-trial query is also fed near ties that only float64 tells apart and is order-embedded per case)',
+          'floats are order-embedded into integers for the model (the pure routines are fed grid values and +-inf, which are float32-representable, so the float32 arithmetic of jax merges nothing; the in-memory best-trial query is also fed near ties that only float64 tells apart and is order-embedded per case)',
           'recursive_threshold >= 1 for is_pareto_optimal (0 recurses forever as written: c11_fast_thr0_diverges); all thresholds >= 0 for is_pareto_optimal_against',
           'the 0-d array returned by the 1-D base case of Fast.is_pareto_optimal_against for a single point is read as a length-1 array',
           'ListOptimalTrials treats every configured metric (safety metrics included) as an objective, as the code does; GetBestTrials ranks unsafe trials by the worst value (SafetyChecker), as the code does',
